@@ -161,6 +161,8 @@ def r16_2(ctx):
                     detail = "key is not a (sym, ctxt) tuple"
                     if key.get("k") == "Tup" and len(key["items"]) == 2:
                         a, c = strip_transparent(key["items"][0]), strip_transparent(key["items"][1])
+                        if a.get("k") == "Field" and a["name"] == "ctxt" and c.get("k") == "Field" and c["name"] == "sym":
+                            a, c = c, a       # (ctxt, sym): the same key, written the other way round
                         if a.get("k") == "Field" and a["name"] == "sym" and c.get("k") == "Field" and c["name"] == "ctxt":
                             ra, rc = expr_str(a["e"]), expr_str(c["e"])
                             ok = ra == rc
@@ -172,7 +174,7 @@ def r16_2(ctx):
     # any other map field keyed by a bare name
     for f in ctx.facts.struct_fields("VueJsxTransformVisitor") or []:
         if re.search(r"(HashMap|BTreeMap|IndexMap)<", f["ty"]) and "swc_atoms::Atom" in f["ty"].split(",")[0] and "SyntaxContext" not in f["ty"].split(">")[0]:
-            if "(swc_atoms::Atom, swc_common::SyntaxContext)" not in f["ty"]:
+            if "(swc_atoms::Atom, swc_common::SyntaxContext)" not in f["ty"] and "(swc_common::SyntaxContext, swc_atoms::Atom)" not in f["ty"]:
                 r.ob("visitor map field %s is keyed by name and scope" % f["name"], False, "-", "%s is keyed by a bare name" % f["ty"][:120])
     r.ob("registry accesses found", n >= 1, "-", "%d access(es)" % n)
     return r
@@ -393,7 +395,7 @@ def r16_5(ctx):
                     lowers = []
                     for x in walk(a["body"]):
                         if x.get("k") == "Struct" and (x.get("adt") or "").endswith("PropIr"):
-                            reqs.append(expr_str({f["name"]: f["e"] for f in x["fields"]}["required"]))
+                            reqs.append(expr_str({f["name"]: f["e"] for f in x["fields"]}["required"]).replace("!False", "True").replace("!True", "False"))
                         if x.get("k") == "Assign" and expr_str(x["l"]).endswith(".required"):
                             lowers.append(expr_str(x["r"]))
                     r.ob("%s: required = %s for a new prop" % (v, want[v]), reqs == [want[v]], C.mloc(pb, a), "PropIr.required = %s" % reqs)
@@ -427,7 +429,7 @@ def r16_6(ctx):
         reg = set()
         for i, t in calls(mb):
             name = callee_name(t)
-            if re.search(r"HashMap::<K, V, S, A>::insert$|Vec::<T, A>::(extend_from_slice|extend|append|push)$", name):
+            if re.search(r"HashMap::<K, V, S, A>::(insert|entry)$|Vec::<T, A>::(extend_from_slice|extend|append|push)$", name):
                 fields = {first_field(f) for f in self_field_of(fl.op_sources(t["args"][0]))}
                 if fields & {"interfaces", "type_aliases"}:
                     reg.add(i)
